@@ -13,7 +13,7 @@
 (*         instructions, handed to the commands it starts)                 *)
 (*   rnd   random generator: seed and number of draws since seeding        *)
 (*                                                                         *)
-(* One AWK program (harness/c14/program.go) has 24 modes ("run kinds"),    *)
+(* One AWK program (harness/c14/program.go) has 38 modes ("run kinds"),    *)
 (* selected by the variable `mode` given through Config.Vars; every mode   *)
 (* first prints a fingerprint of all the state it can see in BEGIN, then   *)
 (* does what its kind says.  Run(st, kind, cfg) is the transcription of    *)
@@ -52,6 +52,42 @@
 (*    would show: a loop longer than one poll interval (p_func), a         *)
 (*    run-time error (reported as the context's error), a command being    *)
 (*    started (sys: system(), pipe: cmd | getline).                        *)
+(*                                                                         *)
+(* Second extension -- kinds of state an earlier run can leave behind:     *)
+(*  - range patterns.  The program has one range pattern; whether it is    *)
+(*    open (pr.rng) belongs to ONE pass over the input.  The kinds rg_*    *)
+(*    open it and end in every way: it is closed by a later record         *)
+(*    (rg_close, rg_next), stays open to the end of the input (rg_eof,     *)
+(*    rg_nextfile: the rest of the input is skipped, rg_getline: the body  *)
+(*    consumes the closing record), or the run leaves the main loop inside *)
+(*    the range by exit (rg_exit), a run-time error (rg_err) or            *)
+(*    cancellation (rg_cancel).  Every kind evaluates the range rule, so a *)
+(*    range left open WOULD match the records before the start pattern.   *)
+(*  - the random generator rnd = [seed, idx].  Every rand() of the program *)
+(*    is printed and predicted as the idx-th draw after seeding with seed  *)
+(*    (chunk comparison "rnd": the harness takes the value from a NEW      *)
+(*    interpreter that does srand(seed) and idx+1 draws; seed 1 is the     *)
+(*    seed of a new interpreter).  As documented for Execute and           *)
+(*    ResetRand, the sequence continues from run to run and restarts with  *)
+(*    ResetRand; srand(n) restarts it with seed n and returns the previous *)
+(*    seed; after srand() (time of day, seed -1) nothing is predicted      *)
+(*    until the next srand(n) / ResetRand.  The kinds call rand / srand in *)
+(*    every order: fp() draws first except in the kinds NoFpRand (nr_plain *)
+(*    never draws, sr_first seeds before its first draw, sr_only only      *)
+(*    seeds, sr_time seeds from the clock).                                *)
+(*  - the arrays the interpreter fills: ARGV and ENVIRON from every run's  *)
+(*    own Config.Args / Argv0 / Environ (configurations c5, c6 have        *)
+(*    different, longer and shorter ones), FIELDS from a CSV header.  They *)
+(*    are arrays, so ResetVars empties them; every run enumerates them     *)
+(*    completely and reads ARGV beyond ARGC.  av_write / av_del add and    *)
+(*    delete elements.  Without ResetVars the statement does not say       *)
+(*    whether elements the new Config does not assign survive: such an     *)
+(*    enumeration is predicted only when no such element exists            *)
+(*    (pr.argvOk, pr.envOk); the elements below ARGC always are.  FIELDS   *)
+(*    and RT are predicted (empty) when no earlier run since ResetVars set *)
+(*    them.                                                                *)
+(*  - what the Config switches per run: Chars (c6), NoExec / NoFileWrites  *)
+(*    / NoFileReads / NoArgVars (c7), `var=value` operands (c5 assigns g). *)
 (***************************************************************************)
 EXTENDS Csv, TLC
 
@@ -64,8 +100,21 @@ FmtNum(fmt) == CASE fmt = FmtDefault -> <<D0, DOT, D1, D2, D3, D4, D5, D7>>
                  [] fmt = Fmt2       -> <<D0, DOT, D1, D2>>
                  [] fmt = Fmt3       -> <<D0, DOT, D1, D2, D3>>
 
+\* ARGV, ENVIRON: one value per key of a fixed universe (ARGV[0..5]; ENVIRON["home"], ["lang"], ["token"], ["user"],
+\* in the byte order of the keys), Absent where the array has no such element
+Absent   == <<0 - 1>>
+ArgvLen  == 6
+EnvKeys  == << <<c_h, c_o, c_m, c_e>>, <<c_l, c_a, c_n, c_g>>, <<c_t, c_o, c_k, c_e, c_n>>, <<c_u, c_s, c_e, c_r>> >>
+NoArgv   == [j \in 1..ArgvLen |-> Absent]
+NoEnv    == [j \in 1..Len(EnvKeys) |-> Absent]
+
 VarsInit == [g |-> <<>>, ak |-> <<MINUS>>, fs |-> <<SP>>, rs |-> <<LF>>, ofs |-> <<SP>>, ors |-> <<LF>>,
-             convfmt |-> FmtDefault, ofmt |-> FmtDefault, subsep |-> <<28>>]
+             convfmt |-> FmtDefault, ofmt |-> FmtDefault, subsep |-> <<28>>,
+             argv |-> NoArgv, env |-> NoEnv,
+             fields |-> <<>>,       \* the array FIELDS: the header names of the last header row read
+             rtset |-> FALSE]       \* RT was set by reading a record of the main input
+\* seed: what the generator was last seeded with (1: a new interpreter / ResetRand; -1: the time of day, srand());
+\* idx: draws since then
 RndInit  == [seed |-> 1, idx |-> 0]
 
 ModeDefault == [m |-> "default", hdr |-> FALSE]
@@ -80,6 +129,9 @@ PrInit == [line |-> <<>>, nf |-> 0, nr |-> 0, fnr |-> 0, filename |-> <<>>, rsta
            hdr |-> <<>>,          \* CSV header names (<<>> = none)
            imode |-> ModeDefault, omode |-> "default",
            status |-> 0, sp |-> 0, argc |-> 1,
+           rng |-> FALSE,         \* the range pattern of the program is open
+           chars |-> FALSE, sandbox |-> FALSE,    \* Config.Chars; Config.NoExec + NoFileWrites + NoFileReads + NoArgVars
+           argvOk |-> TRUE, envOk |-> TRUE,       \* at the start of the run ARGV / ENVIRON held no element its Config does not assign
            dash |-> [open |-> FALSE, rest |-> <<>>],   \* the scanner of getline < "-" and the records it still holds
            stdinUsed |-> FALSE,   \* this run's standard input was handed to a scanner (set anew by every call)
            mainEof |-> FALSE,     \* this run's main input was read to its end
@@ -94,12 +146,25 @@ StInit == [vars |-> VarsInit, pr |-> PrInit, rnd |-> RndInit]
 \* c2: InputMode csv with header, input on stdin, Execute.
 \* c3: zero Config, input on stdin, ExecuteContext with a context whose deadline passes when the call has returned.
 \* c4: zero Config, input on stdin, ExecuteContext(context.Background()).
+\* c5: Argv0 "prog", Args "g=G5" "o2=B" "o3=C" (assignment operands: the first sets the program's global g when the
+\*     main input is opened, the others name no variable of the program), Environ home=hh lang=c, input on stdin, Execute.
+\* c6: Args "o9=X", Environ user=bob, Chars, input on stdin, Execute.
+\* c7: NoExec, NoFileWrites, NoFileReads, NoArgVars, input on stdin, Execute.
 \* tag: which run of the history this is; it only makes the run's standard input its own.
-Cfgs == { [name |-> "c0", fsvar |-> FALSE, omode |-> "default", imode |-> ModeDefault, src |-> "stdin", api |-> "exec", tag |-> 1],
-          [name |-> "c1", fsvar |-> TRUE,  omode |-> "tsv",     imode |-> ModeDefault, src |-> "file",  api |-> "ctx", tag |-> 1],
-          [name |-> "c2", fsvar |-> FALSE, omode |-> "default", imode |-> [m |-> "csv", hdr |-> TRUE], src |-> "stdin", api |-> "exec", tag |-> 1],
-          [name |-> "c3", fsvar |-> FALSE, omode |-> "default", imode |-> ModeDefault, src |-> "stdin", api |-> "ctxdl", tag |-> 1],
-          [name |-> "c4", fsvar |-> FALSE, omode |-> "default", imode |-> ModeDefault, src |-> "stdin", api |-> "ctxbg", tag |-> 1] }
+InfName == <<c_i, c_n, c_f>>                      \* the harness substitutes the real path (the program prints ARGV values without their directory)
+Cfg0 == [name |-> "c0", fsvar |-> FALSE, omode |-> "default", imode |-> ModeDefault, src |-> "stdin", api |-> "exec", tag |-> 1,
+         argv0 |-> <<>>, args |-> <<>>, env |-> NoEnv, gset |-> <<>>, chars |-> FALSE, sandbox |-> FALSE]
+Cfgs == { Cfg0,
+          [Cfg0 EXCEPT !.name = "c1", !.fsvar = TRUE, !.omode = "tsv", !.src = "file", !.api = "ctx", !.args = <<InfName>>],
+          [Cfg0 EXCEPT !.name = "c2", !.imode = [m |-> "csv", hdr |-> TRUE]],
+          [Cfg0 EXCEPT !.name = "c3", !.api = "ctxdl"],
+          [Cfg0 EXCEPT !.name = "c4", !.api = "ctxbg"],
+          [Cfg0 EXCEPT !.name = "c5", !.argv0 = <<c_p, c_r, c_o, c_g>>,
+                       !.args = << <<c_g, EQ, C_G, D5>>, <<c_o, D2, EQ, C_B>>, <<c_o, D3, EQ, C_C>> >>,
+                       !.env = << <<c_h, c_h>>, <<c_c>>, Absent, Absent >>, !.gset = <<C_G, D5>>],
+          [Cfg0 EXCEPT !.name = "c6", !.args = << <<c_o, D9, EQ, C_X>> >>,
+                       !.env = << Absent, Absent, Absent, <<c_b, c_o, c_b>> >>, !.chars = TRUE],
+          [Cfg0 EXCEPT !.name = "c7", !.sandbox = TRUE] }
 CfgNames == {c.name : c \in Cfgs}
 CfgNamed(nm) == CHOOSE c \in Cfgs : c.name = nm
 WithTag(cfg, n) == [cfg EXCEPT !.tag = n]
@@ -111,20 +176,28 @@ StdinOf(cfg) == CASE cfg.name = "c0" -> <<c_x, SP, c_y, LF, D5, SP, D6, LF>> \o 
                   [] cfg.name = "c2" -> <<c_x, COMMA, c_y, LF, D5, COMMA, D6, LF>> \o TagField(cfg) \o <<COMMA, D9, LF>>
                   [] cfg.name = "c3" -> <<c_x, SP, c_y, LF, D7, SP, D8, LF>> \o TagField(cfg) \o <<SP, D9, LF>>
                   [] cfg.name = "c4" -> <<c_x, SP, c_y, LF, D3, SP, D4, LF>> \o TagField(cfg) \o <<SP, D9, LF>>
+                  [] cfg.name = "c5" -> <<c_x, SP, c_y, LF, D2, SP, D1, LF>> \o TagField(cfg) \o <<SP, D9, LF>>
+                  [] cfg.name = "c6" -> <<c_x, SP, c_y, LF, D4, SP, D2, LF>> \o TagField(cfg) \o <<SP, D9, LF>>
+                  [] cfg.name = "c7" -> <<c_x, SP, c_y, LF, D6, SP, D3, LF>> \o TagField(cfg) \o <<SP, D9, LF>>
 InfContent == <<c_x, COLON, c_y, LF, D5, COLON, D6, LF>>   \* the file operand of c1
 MainInput(cfg) == IF cfg.src = "file" THEN InfContent ELSE StdinOf(cfg)
-InfName == <<c_i, c_n, c_f>>                      \* the harness substitutes the real path
 RfContent == <<c_r, D1, LF, c_r, D2, LF, c_r, D3, LF>>
 WfWritten == <<80, LF>>                          \* "P\n"
 StaleContent == <<c_s, c_t, c_a, c_l, c_e, LF>>   \* what a file holds when a write went to a dead stream
 
+RangeKinds == {"rg_close", "rg_eof", "rg_exit", "rg_err", "rg_cancel", "rg_next", "rg_nextfile", "rg_getline"}
 Kinds == {"plain", "setglob", "setfs", "csvhdr", "setmodes", "openout", "exit3", "errfunc", "errforin", "cancel",
           "rand", "srand5", "midfile", "match", "p_io", "p_func",
           "gl_plain", "gl_dash", "gl_dashvar",              \* standard input through getline / getline < "-" / getline var < "-"
           "exit_enderr", "exitbegin", "exit_endcancel",     \* exit N outside END, then END fails
-          "sys", "pipe"}                                    \* a command is started: system(), cmd | getline
+          "sys", "pipe",                                    \* a command is started: system(), cmd | getline
+          "nr_plain", "sr_first", "sr_only", "sr_time",     \* never rand(); srand(7) before the first rand(); srand(9) only; srand()
+          "av_write", "av_del"}                             \* the program adds / deletes elements of ARGV and ENVIRON
+         \cup RangeKinds                                     \* the range pattern is opened and the run ends in every way
+\* kinds whose fingerprint does not call rand()
+NoFpRand == {"nr_plain", "sr_first", "sr_only", "sr_time"}
 \* kinds that cancel their own call: they need a context that can be cancelled whatever the configuration says
-CancelKinds == {"cancel", "exit_endcancel"}
+CancelKinds == {"cancel", "exit_endcancel", "rg_cancel"}
 Errors == {"error", "canceled", "deadline"}
 ApiOf(kind, cfg) == IF kind \in CancelKinds /\ cfg.api \in {"exec", "ctxbg"} THEN "ctx" ELSE cfg.api
 \* how a run that makes its own context done ends: context.Canceled, or DeadlineExceeded for a deadline context
@@ -147,15 +220,18 @@ FieldsOf(line, fs) ==
 Scan(st, content) ==
   LET im == st.pr.imode IN
   IF im.m = "default"
-  THEN [hdr |-> st.pr.hdr,
+  THEN [hdr |-> st.pr.hdr, newhdr |-> FALSE,
         recs |-> LET ps == Pieces(content, st.vars.rs)
                  IN [j \in 1..Len(ps) |-> [line |-> ps[j], fields |-> FieldsOf(ps[j], st.vars.fs)]]]
   ELSE LET sep  == IF im.m = "csv" THEN <<COMMA>> ELSE <<TAB>>
            rows == Pieces(content, <<LF>>)
            all  == [j \in 1..Len(rows) |-> [line |-> rows[j], fields |-> SplitLit(rows[j], sep)]]
        IN IF im.hdr /\ Len(rows) > 0
-          THEN [hdr |-> all[1].fields, recs |-> SubSeq(all, 2, Len(all))]
-          ELSE [hdr |-> st.pr.hdr, recs |-> all]
+          THEN [hdr |-> all[1].fields, newhdr |-> TRUE, recs |-> SubSeq(all, 2, Len(all))]
+          ELSE [hdr |-> st.pr.hdr, newhdr |-> FALSE, recs |-> all]
+NoScan(st) == [hdr |-> st.pr.hdr, newhdr |-> FALSE, recs |-> <<>>]
+\* the header names a scanner has read become the names of @"name" and the array FIELDS
+SetHdr(st, sc) == [st EXCEPT !.pr.hdr = sc.hdr, !.vars.fields = IF sc.newhdr THEN sc.hdr ELSE @]
 
 \* @"name": <<found?, value>>; the last column of that name wins
 FieldByName(st, fields, name) ==
@@ -180,8 +256,36 @@ PrintLine(st, flds) ==
     [] st.pr.omode = "csv"     -> CsvEncode(flds, <<COMMA>>) \o <<LF>>
     [] st.pr.omode = "tsv"     -> CsvEncode(flds, <<TAB>>) \o <<LF>>
 
+\* a chunk whose value is predicted only under a condition
+ChunkIf(cond, key, val) == [k |-> key, v |-> IF cond THEN val ELSE <<>>, cmp |-> IF cond THEN "eq" ELSE "any"]
+
+\* ---- the random generator
+\* the value of a rand(): the idx-th draw (from 0) after seeding with seed, as a new interpreter yields it
+RndChunk(key, rnd) ==
+  IF rnd.seed < 0 THEN [k |-> key, v |-> <<>>, cmp |-> "any"]
+  ELSE [k |-> key, v |-> IntStr(rnd.seed) \o <<COLON>> \o IntStr(rnd.idx), cmp |-> "rnd"]
+\* the value of srand(..): the previous seed
+SeedChunk(rnd) == ChunkIf(rnd.seed >= 0, "sr", IntStr(rnd.seed))
+Draw(st) == [st EXCEPT !.rnd.idx = IF st.rnd.seed < 0 THEN 0 ELSE @ + 1]
+Seeded(st, n) == [st EXCEPT !.rnd = [seed |-> n, idx |-> 0]]
+
+\* ---- the arrays ARGV and ENVIRON
+\* enum(a): "key=value;" for every element, in the byte order of the keys
+RECURSIVE EnumFrom(_, _, _)
+EnumFrom(arr, keys, j) ==
+  IF j > Len(arr) THEN <<>>
+  ELSE (IF arr[j] = Absent THEN <<>> ELSE keys[j] \o <<EQ>> \o arr[j] \o <<SEMI>>) \o EnumFrom(arr, keys, j + 1)
+ArgvKeys == [j \in 1..ArgvLen |-> IntStr(j - 1)]
+EnumArgv(av) == EnumFrom(av, ArgvKeys, 1)
+EnumEnv(ev)  == EnumFrom(ev, EnvKeys, 1)
+\* argvto(lo, hi): "value," or "-," for ARGV[lo] .. ARGV[hi-1]
+RECURSIVE ArgvTo(_, _, _)
+ArgvTo(av, lo, hi) ==
+  IF lo >= hi THEN <<>>
+  ELSE (IF lo + 1 > Len(av) \/ av[lo + 1] = Absent THEN <<MINUS>> ELSE av[lo + 1]) \o <<COMMA>> \o ArgvTo(av, lo + 1, hi)
+
 \* what function fp() of the program prints in BEGIN
-Fingerprint(st) ==
+Fingerprint(st, kind) ==
   << Chunk("g", st.vars.g), Chunk("ak", st.vars.ak),
      Chunk("FS", st.vars.fs), Chunk("RS", st.vars.rs), Chunk("OFS", st.vars.ofs), Chunk("ORS", st.vars.ors),
      Chunk("CONVFMT", st.vars.convfmt), Chunk("OFMT", st.vars.ofmt), Chunk("SUBSEP", st.vars.subsep),
@@ -190,23 +294,33 @@ Fingerprint(st) ==
      Chunk("NR", IntStr(st.pr.nr)), Chunk("FNR", IntStr(st.pr.fnr)), Chunk("NF", IntStr(st.pr.nf)),
      Chunk("line", st.pr.line), Chunk("FILENAME", st.pr.filename),
      Chunk("RSTART", IntStr(st.pr.rstart)), Chunk("RLENGTH", IntStr(st.pr.rlength)),
+     ChunkIf(~st.vars.rtset, "RT", <<>>),
      Chunk("INPUTMODE", ImodeText(st.pr.imode)), Chunk("OUTPUTMODE", OmodeText(st.pr.omode)),
-     \* rand(): the statement fixes its value only relative to a fresh interpreter
-     [k |-> "rand", v |-> <<>>, cmp |-> IF st.rnd = RndInit THEN "fresh" ELSE "any"],
-     RawChunk(PrintLine(st, <<FmtNum(st.vars.ofmt), <<c_q>>>>)) >>
+     Chunk("chars", IF st.pr.chars THEN <<D1>> ELSE <<D2>>),          \* length("\303\251")
+     Chunk("ARGC", IntStr(st.pr.argc)),
+     Chunk("argvc", ArgvTo(st.vars.argv, 0, st.pr.argc)),
+     ChunkIf(st.pr.argvOk, "argv", EnumArgv(st.vars.argv)),
+     ChunkIf(st.pr.argvOk, "argvx", ArgvTo(st.vars.argv, st.pr.argc, st.pr.argc + 2)),
+     ChunkIf(st.pr.envOk, "env", EnumEnv(st.vars.env)),
+     ChunkIf(st.vars.fields = <<>>, "FIELDS", <<>>) >>
+  \o (IF kind \in NoFpRand THEN <<>> ELSE <<RndChunk("rand", st.rnd)>>)
+  \o << Chunk("pl", <<>>), RawChunk(PrintLine(st, <<FmtNum(st.vars.ofmt), <<c_q>>>>)) >>
 
 \* ------------------------------------------------------------- one run
 \* The run proceeds through phases (BEGIN, main loop, END); a phase result is
 \* [st, out, stop] with stop in {"", "exit"} \cup Errors.
 
 \* getline ln < name  on a file with the given content, not read before in this run
+\* (err: the file may not be opened -- Config.NoFileReads -- which is a run-time error)
 GetlineFile(st, name, content) ==
   IF name \in st.pr.ins
-  THEN [st |-> st, ret |-> 0 - 1, val |-> <<>>]                      \* a dead stream left in the map
+  THEN [st |-> st, ret |-> 0 - 1, val |-> <<>>, err |-> FALSE]       \* a dead stream left in the map
+  ELSE IF st.pr.sandbox THEN [st |-> st, ret |-> 0, val |-> <<>>, err |-> TRUE]
   ELSE LET sc == Scan(st, content)
-       IN [st  |-> [st EXCEPT !.pr.hdr = sc.hdr, !.pr.ins = @ \cup {name}],
+       IN [st  |-> [SetHdr(st, sc) EXCEPT !.pr.ins = @ \cup {name}],
            ret |-> IF sc.recs = <<>> THEN 0 ELSE 1,
-           val |-> IF sc.recs = <<>> THEN <<>> ELSE sc.recs[1].line]
+           val |-> IF sc.recs = <<>> THEN <<>> ELSE sc.recs[1].line,
+           err |-> FALSE]
 
 \* The main input is opened (by the main loop or by a plain getline, whichever comes first): the state
 \* afterwards and the records the scanner will yield.  A scanner left over from an earlier run would be
@@ -214,12 +328,14 @@ GetlineFile(st, name, content) ==
 \* end yields nothing more.
 OpenMain(st, cfg) ==
   LET noNew == st.pr.scanner \/ st.pr.mainEof
-      sc    == IF noNew \/ (cfg.src = "stdin" /\ st.pr.stdinUsed)
-               THEN [hdr |-> st.pr.hdr, recs |-> <<>>] ELSE Scan(st, MainInput(cfg))
-  IN [st |-> [st EXCEPT !.pr.hdr = sc.hdr,
+      sc    == IF noNew \/ (cfg.src = "stdin" /\ st.pr.stdinUsed) THEN NoScan(st) ELSE Scan(st, MainInput(cfg))
+  IN [st |-> [SetHdr(st, sc) EXCEPT
                         !.pr.filename = IF noNew THEN @ ELSE IF cfg.src = "file" THEN InfName ELSE <<MINUS>>,
                         !.pr.fnr = IF noNew THEN @ ELSE 0,
-                        !.pr.stdinUsed = @ \/ (cfg.src = "stdin" /\ ~noNew)],
+                        !.pr.stdinUsed = @ \/ (cfg.src = "stdin" /\ ~noNew),
+                        \* on the way to the first input the assignment operands are carried out
+                        !.vars.g = IF ~noNew /\ cfg.gset # <<>> THEN cfg.gset ELSE @,
+                        !.vars.rtset = TRUE],             \* reading the main input sets RT
       recs |-> sc.recs]
 
 \* getline < "-" / getline var < "-": the scanner named "-" is created on the run's standard input at the
@@ -228,8 +344,8 @@ NoRec == [line |-> <<>>, fields |-> <<>>]
 GetlineDash(st, cfg) ==
   LET d  == st.pr.dash
       op == IF d.open THEN [st |-> st, rest |-> d.rest]
-            ELSE LET sc == IF st.pr.stdinUsed THEN [hdr |-> st.pr.hdr, recs |-> <<>>] ELSE Scan(st, StdinOf(cfg))
-                 IN [st |-> [st EXCEPT !.pr.hdr = sc.hdr, !.pr.stdinUsed = TRUE], rest |-> sc.recs]
+            ELSE LET sc == IF st.pr.stdinUsed THEN NoScan(st) ELSE Scan(st, StdinOf(cfg))
+                 IN [st |-> [SetHdr(st, sc) EXCEPT !.pr.stdinUsed = TRUE], rest |-> sc.recs]
   IN IF op.rest = <<>>
      THEN [st |-> [op.st EXCEPT !.pr.dash = [open |-> TRUE, rest |-> <<>>]], ret |-> 0, rec |-> NoRec]
      ELSE [st |-> [op.st EXCEPT !.pr.dash = [open |-> TRUE, rest |-> Tail(op.rest)]], ret |-> 1, rec |-> Head(op.rest)]
@@ -251,8 +367,8 @@ PlainAll(st, recs, j, out) ==
                 recs, j + 1, Append(out, Chunk("gl", recs[j].line)))
 
 BeginPhase(st0, kind, cfg) ==
-  LET fp == Fingerprint(st0)
-      st == [st0 EXCEPT !.rnd.idx = @ + 1]
+  LET fp == Fingerprint(st0, kind)
+      st == IF kind \in NoFpRand THEN st0 ELSE Draw(st0)
   IN CASE kind = "setfs" ->
             [st |-> [st EXCEPT !.vars.fs = <<COMMA>>, !.vars.rs = <<SEMI>>, !.vars.ofs = <<MINUS>>,
                                !.vars.ors = <<BANG, LF>>, !.vars.convfmt = Fmt2, !.vars.ofmt = Fmt3,
@@ -262,28 +378,49 @@ BeginPhase(st0, kind, cfg) ==
             [st |-> [st EXCEPT !.pr.imode = [m |-> "csv", hdr |-> TRUE]], out |-> fp, stop |-> ""]
        [] kind = "setmodes" ->
             [st |-> [st EXCEPT !.pr.imode = [m |-> "tsv", hdr |-> FALSE], !.pr.omode = "csv"], out |-> fp, stop |-> ""]
-       [] kind = "rand" ->
-            [st |-> [st EXCEPT !.rnd.idx = @ + 2], out |-> fp, stop |-> ""]
-       [] kind = "srand5" ->
-            [st |-> [st EXCEPT !.rnd = [seed |-> 5, idx |-> 1]], out |-> fp, stop |-> ""]
+       [] kind = "rand" ->           \* emit("rnd", rand()); emit("rnd", rand())
+            [st |-> Draw(Draw(st)), out |-> fp \o <<RndChunk("rnd", st.rnd), RndChunk("rnd", Draw(st).rnd)>>, stop |-> ""]
+       [] kind = "srand5" ->         \* emit("sr", srand(5)); emit("rnd", rand())
+            [st |-> Draw(Seeded(st, 5)), out |-> fp \o <<SeedChunk(st.rnd), RndChunk("rnd", Seeded(st, 5).rnd)>>, stop |-> ""]
+       [] kind = "sr_first" ->       \* emit("sr", srand(7)); emit("rnd", rand()); emit("rnd", rand())
+            [st |-> Draw(Draw(Seeded(st, 7))),
+             out |-> fp \o <<SeedChunk(st.rnd), RndChunk("rnd", Seeded(st, 7).rnd), RndChunk("rnd", Draw(Seeded(st, 7)).rnd)>>,
+             stop |-> ""]
+       [] kind = "sr_only" ->        \* emit("sr", srand(9))
+            [st |-> Seeded(st, 9), out |-> fp \o <<SeedChunk(st.rnd)>>, stop |-> ""]
+       [] kind = "sr_time" ->        \* emit("sr", srand()); emit("rnd", rand())
+            [st |-> Seeded(st, 0 - 1), out |-> fp \o <<SeedChunk(st.rnd), RndChunk("rnd", Seeded(st, 0 - 1).rnd)>>, stop |-> ""]
+       [] kind = "av_write" ->       \* ARGV[5] = "zz"; ENVIRON["token"] = "tk"; both arrays are enumerated again
+            LET s1 == [st EXCEPT !.vars.argv[6] = <<c_z, c_z>>, !.vars.env[3] = <<c_t, c_k>>]
+            IN [st |-> s1,
+                out |-> fp \o <<ChunkIf(st.pr.argvOk, "argvw", EnumArgv(s1.vars.argv)), ChunkIf(st.pr.envOk, "envw", EnumEnv(s1.vars.env))>>,
+                stop |-> ""]
+       [] kind = "av_del" ->         \* delete ARGV[2]; delete ENVIRON["home"]; both arrays are enumerated again
+            LET s1 == [st EXCEPT !.vars.argv[3] = Absent, !.vars.env[1] = Absent]
+            IN [st |-> s1,
+                out |-> fp \o <<ChunkIf(st.pr.argvOk, "argvw", EnumArgv(s1.vars.argv)), ChunkIf(st.pr.envOk, "envw", EnumEnv(s1.vars.env))>>,
+                stop |-> ""]
        [] kind = "midfile" ->
             LET gl == GetlineFile(st, "rf", RfContent)
-            IN [st |-> gl.st, out |-> fp \o <<Chunk("midret", IntStr(gl.ret)), Chunk("mid", gl.val)>>, stop |-> ""]
+            IN IF gl.err THEN [st |-> gl.st, out |-> fp, stop |-> ErrStop(gl.st)]
+               ELSE [st |-> gl.st, out |-> fp \o <<Chunk("midret", IntStr(gl.ret)), Chunk("mid", gl.val)>>, stop |-> ""]
        [] kind = "match" ->
             [st |-> [st EXCEPT !.pr.rstart = 3, !.pr.rlength = 3], out |-> fp, stop |-> ""]
        [] kind = "p_io" ->
             \* printf "P\n" > wf; close(wf); read wf back to the end; close(wf); getline ln < rf
+            \* (under Config.NoFileWrites the first statement is a run-time error)
             LET dead    == "wf" \in st.pr.outs
                 content == IF dead THEN StaleContent ELSE WfWritten
                 s1      == [st EXCEPT !.pr.outs = @ \ {"wf"}]
                 sc      == Scan(s1, content)
-                s2      == [s1 EXCEPT !.pr.hdr = sc.hdr]
+                s2      == SetHdr(s1, sc)
                 gl      == GetlineFile(s2, "rf", RfContent)
-            IN [st |-> gl.st,
-                out |-> fp \o <<Chunk("wclose", <<D0>>)>>
-                           \o [j \in 1..Len(sc.recs) |-> Chunk("wline", sc.recs[j].line)]
-                           \o <<Chunk("rret", IntStr(gl.ret)), Chunk("rline", gl.val)>>,
-                stop |-> ""]
+            IN IF st.pr.sandbox THEN [st |-> st, out |-> fp, stop |-> ErrStop(st)]
+               ELSE [st |-> gl.st,
+                     out |-> fp \o <<Chunk("wclose", <<D0>>)>>
+                                \o [j \in 1..Len(sc.recs) |-> Chunk("wline", sc.recs[j].line)]
+                                \o <<Chunk("rret", IntStr(gl.ret)), Chunk("rline", gl.val)>>,
+                     stop |-> ""]
        [] kind = "p_func" ->
             \* fact(5), a for-in sum, boom(1), a 600-iteration loop (longer than one poll interval of the
             \* context: a done context that governs the interpreter ends the run there), match("zzab", /ab/)
@@ -310,9 +447,16 @@ MainFrom(st, kind, cfg, recs, j, out, acc) ==       \* acc: running sum of $1 (p
   ELSE
     LET rc  == recs[j]
         f1  == IF Len(rc.fields) >= 1 THEN rc.fields[1] ELSE <<>>
-        s1  == [st EXCEPT !.pr.line = rc.line, !.pr.nf = Len(rc.fields), !.pr.nr = @ + 1, !.pr.fnr = @ + 1,
+        s0  == [st EXCEPT !.pr.line = rc.line, !.pr.nf = Len(rc.fields), !.pr.nr = @ + 1, !.pr.fnr = @ + 1,
                           !.pr.scanner = TRUE]
-        o1  == Append(out, Chunk("rec", IntStr(s1.pr.nr) \o <<SLASH>> \o IntStr(s1.pr.nf) \o <<SLASH>> \o f1))
+        o0  == Append(out, Chunk("rec", IntStr(s0.pr.nr) \o <<SLASH>> \o IntStr(s0.pr.nf) \o <<SLASH>> \o f1))
+        \* the range rule  (mode ~ /^rg_/ && $1 ~ /^[0-9]/), ($1 ~ /^t/ && mode != "rg_eof") { emit("rg", $1) }:
+        \* it matches when the range is open or opens here; the matching record may close it
+        dig == f1 # <<>> /\ IsDigit(f1[1])
+        inr == s0.pr.rng \/ (kind \in RangeKinds /\ dig)
+        cls == inr /\ f1 # <<>> /\ f1[1] = c_t /\ kind # "rg_eof"
+        s1  == [s0 EXCEPT !.pr.rng = inr /\ ~cls]
+        o1  == IF inr THEN Append(o0, Chunk("rg", f1)) ELSE o0
     IN CASE kind = "setglob" ->
               MainFrom([s1 EXCEPT !.vars.g = <<c_g>> \o IntStr(s1.pr.nr), !.vars.ak = <<c_a>> \o IntStr(s1.pr.nr)],
                        kind, cfg, recs, j + 1, o1, acc)
@@ -320,8 +464,9 @@ MainFrom(st, kind, cfg, recs, j, out, acc) ==       \* acc: running sum of $1 (p
               LET fb == FieldByName(s1, rc.fields, <<c_x>>)
               IN IF fb.err THEN [st |-> s1, out |-> o1, stop |-> ErrStop(s1), acc |-> acc]
                  ELSE MainFrom(s1, kind, cfg, recs, j + 1, Append(o1, Chunk("x", fb.val)), acc)
-         [] kind = "openout" ->
-              MainFrom([s1 EXCEPT !.pr.outs = @ \cup {"wf"}], kind, cfg, recs, j + 1, o1, acc)
+         [] kind = "openout" ->         \* print $0 > wf   (a run-time error under Config.NoFileWrites)
+              IF s1.pr.sandbox /\ "wf" \notin s1.pr.outs THEN [st |-> s1, out |-> o1, stop |-> ErrStop(s1), acc |-> acc]
+              ELSE MainFrom([s1 EXCEPT !.pr.outs = @ \cup {"wf"}], kind, cfg, recs, j + 1, o1, acc)
          [] kind \in {"exit3", "exit_enderr", "exit_endcancel"} ->
               [st |-> [s1 EXCEPT !.pr.status = CASE kind = "exit3" -> 3 [] kind = "exit_enderr" -> 4 [] OTHER -> 5],
                out |-> o1, stop |-> "exit", acc |-> acc]
@@ -331,6 +476,24 @@ MainFrom(st, kind, cfg, recs, j, out, acc) ==       \* acc: running sum of $1 (p
               [st |-> [s1 EXCEPT !.pr.sp = 1], out |-> o1, stop |-> OwnCtxErr(kind, cfg), acc |-> acc]
          [] kind = "p_func" ->
               MainFrom(s1, kind, cfg, recs, j + 1, o1, acc + NumOf(f1))
+         \* the kinds that do something inside the range, at the record that opens it
+         [] kind = "rg_exit" /\ dig ->       \* exit 3
+              [st |-> [s1 EXCEPT !.pr.status = 3], out |-> o1, stop |-> "exit", acc |-> acc]
+         [] kind = "rg_err" /\ dig ->        \* z = 1 / (NF - NF)
+              [st |-> s1, out |-> o1, stop |-> ErrStop(s1), acc |-> acc]
+         [] kind = "rg_cancel" /\ dig ->     \* j = 0; while (1) spin(j++)
+              [st |-> [s1 EXCEPT !.pr.sp = 1], out |-> o1, stop |-> OwnCtxErr(kind, cfg), acc |-> acc]
+         [] kind = "rg_next" /\ dig ->       \* emit("nx", $1); next
+              MainFrom(s1, kind, cfg, recs, j + 1, Append(o1, Chunk("nx", f1)), acc)
+         [] kind = "rg_nextfile" /\ dig ->   \* nextfile: the rest of the input (the only one) is skipped
+              [st |-> [s1 EXCEPT !.pr.scanner = FALSE], out |-> o1, stop |-> "", acc |-> acc]
+         [] kind = "rg_getline" /\ dig ->    \* r = getline; emit("rgl", r ":" $1): the next record is consumed by the body
+              IF j + 1 <= Len(recs)
+              THEN LET r2 == recs[j + 1]
+                       g1 == IF Len(r2.fields) >= 1 THEN r2.fields[1] ELSE <<>>
+                   IN MainFrom([s1 EXCEPT !.pr.line = r2.line, !.pr.nf = Len(r2.fields), !.pr.nr = @ + 1, !.pr.fnr = @ + 1],
+                               kind, cfg, recs, j + 2, Append(o1, Chunk("rgl", <<D1, COLON>> \o g1)), acc)
+              ELSE MainFrom(s1, kind, cfg, recs, j + 1, Append(o1, Chunk("rgl", <<D0, COLON>> \o f1)), acc)
          [] OTHER -> MainFrom(s1, kind, cfg, recs, j + 1, o1, acc)
 
 \* the END block (runs after a normal main loop and after exit outside END)
@@ -342,15 +505,16 @@ EndPhase(st, kind, cfg, out0, acc) ==
             LET gd == GetlineDash(st, cfg)
             IN [st |-> gd.st, out |-> o1 \o <<Chunk("gvr", IntStr(gd.ret)), Chunk("gv", gd.rec.line)>>, stop |-> ""]
        [] kind = "sys" ->                \* r = system("exit 3")       (a command started under a done context fails)
-            IF Governed(st) THEN [st |-> st, out |-> o1, stop |-> st.pr.ctx.done]
+            \* (and system() is a run-time error under Config.NoExec)
+            IF Governed(st) \/ st.pr.sandbox THEN [st |-> st, out |-> o1, stop |-> ErrStop(st)]
             ELSE [st |-> st, out |-> Append(o1, Chunk("sysrc", <<D3>>)), stop |-> ""]
        [] kind = "pipe" ->               \* ln = ""; r = ("echo hi" | getline ln); emit("pipe", r ":" ln); close("echo hi")
             \* (the command's output is read by a scanner in the current input mode: with a CSV header the one row is the header)
-            IF Governed(st) THEN [st |-> st, out |-> o1, stop |-> st.pr.ctx.done]
+            IF Governed(st) \/ st.pr.sandbox THEN [st |-> st, out |-> o1, stop |-> ErrStop(st)]
             ELSE LET sc == Scan(st, <<c_h, c_i, LF>>)
                      rt == IF sc.recs = <<>> THEN 0 ELSE 1
                      vl == IF sc.recs = <<>> THEN <<>> ELSE sc.recs[1].line
-                 IN [st |-> [st EXCEPT !.pr.hdr = sc.hdr],
+                 IN [st |-> SetHdr(st, sc),
                      out |-> Append(o1, Chunk("pipe", IntStr(rt) \o <<COLON>> \o vl)), stop |-> ""]
        [] kind \in {"exit_enderr", "exitbegin"} ->      \* z = 1 / (NR - NR)
             [st |-> st, out |-> o1, stop |-> ErrStop(st)]
@@ -378,9 +542,17 @@ Run(st, kind, cfg) ==
 \* ------------------------------------------------- start of a run, two ways
 \* what setExecuteConfig and Execute / ExecuteContext overwrite on every run (unsetsCtx: a call without a
 \* context of its own -- Execute, ExecuteContext(Background) -- switches the checking of the previous call's off)
+AssignArgv(av, cfg) ==
+  [j \in 1..ArgvLen |-> IF j = 1 THEN cfg.argv0 ELSE IF j - 1 <= Len(cfg.args) THEN cfg.args[j - 1] ELSE av[j]]
+AssignEnv(ev, cfg) == [j \in 1..Len(EnvKeys) |-> IF cfg.env[j] # Absent THEN cfg.env[j] ELSE ev[j]]
 ApplyCfg(st, kind, cfg, unsetsCtx) ==
   [st EXCEPT !.pr.imode = cfg.imode, !.pr.omode = cfg.omode,
-             !.pr.argc = IF cfg.src = "file" THEN 2 ELSE 1,
+             !.pr.argc = 1 + Len(cfg.args),
+             !.pr.chars = cfg.chars, !.pr.sandbox = cfg.sandbox,
+             \* ARGV[0..len(Args)] and one ENVIRON element per configured variable are assigned
+             !.vars.argv = AssignArgv(@, cfg), !.vars.env = AssignEnv(@, cfg),
+             !.pr.argvOk = \A j \in 1..ArgvLen : st.vars.argv[j] # Absent => j <= 1 + Len(cfg.args),
+             !.pr.envOk  = \A j \in 1..Len(EnvKeys) : st.vars.env[j] # Absent => cfg.env[j] # Absent,
              !.pr.stdinUsed = FALSE, !.pr.mainEof = FALSE,
              !.pr.ctx = IF ApiOf(kind, cfg) \in {"ctx", "ctxdl"} THEN [check |-> TRUE, done |-> "no"]
                         ELSE IF unsetsCtx THEN [check |-> FALSE, done |-> "no"] ELSE @,
@@ -393,7 +565,9 @@ ExecSpec(st, kind, cfg) == Run(ApplyCfg([st EXCEPT !.pr = PrInit], kind, cfg, TR
 \* after the run closeAll closes all streams (they stay in the maps, dead).  "dash": the scanners map
 \* (the scanner of getline < "-" has no stream of its own); "ctx": Execute and
 \* ExecuteContext(Background) set checkCtx to false (ExecuteContext with a real context installs it in any case).
-CoreFields == {"scanner", "ins", "outs", "sp", "record", "match", "status", "hdr", "argc", "dash", "ctx"}
+\* "range": the flags of the range patterns are not a field of the interpreter at all -- a local of execActions,
+\* new for every pass over the input; in the model that is one more clear.
+CoreFields == {"scanner", "ins", "outs", "sp", "record", "match", "status", "hdr", "argc", "dash", "ctx", "range"}
 ResetCore(pr, clears) ==
   [pr EXCEPT !.scanner = IF "scanner" \in clears THEN FALSE ELSE @,
              !.ins     = IF "ins" \in clears THEN {} ELSE @,
@@ -409,9 +583,20 @@ ResetCore(pr, clears) ==
              !.status  = IF "status" \in clears THEN 0 ELSE @,
              !.hdr     = IF "hdr" \in clears THEN <<>> ELSE @,
              !.argc    = IF "argc" \in clears THEN 0 ELSE @,
+             !.rng     = IF "range" \in clears THEN FALSE ELSE @,
              !.dash    = IF "dash" \in clears THEN [open |-> FALSE, rest |-> <<>>] ELSE @]
 ExecCode(st, kind, cfg, clears) ==
   Run(ApplyCfg([st EXCEPT !.pr = ResetCore(@, clears)], kind, cfg, "ctx" \in clears), kind, cfg)
+
+\* What of the per-run state a run leaves behind can still matter to a later ExecCode(.., clears): the fields resetCore
+\* does not clear, minus those ApplyCfg overwrites whatever they hold.  (ResetCore is idempotent, so
+\* ExecCode([st EXCEPT !.pr = Settled(@, clears)], ..) = ExecCode(st, ..); MC_Reuse keeps states in this form, which
+\* keeps the reachable states from being multiplied by everything a run can leave in fields that are cleared anyway.)
+Settled(pr, clears) ==
+  [ResetCore(pr, clears) EXCEPT !.imode = PrInit.imode, !.omode = PrInit.omode, !.chars = PrInit.chars, !.sandbox = PrInit.sandbox,
+                                !.stdinUsed = PrInit.stdinUsed, !.mainEof = PrInit.mainEof,
+                                !.argvOk = PrInit.argvOk, !.envOk = PrInit.envOk,
+                                !.argc = IF "argc" \in clears THEN PrInit.argc ELSE @]
 
 ResetVarsOp(st) == [st EXCEPT !.vars = VarsInit]
 ResetRandOp(st) == [st EXCEPT !.rnd = RndInit]
